@@ -37,6 +37,11 @@ def plan(tier, seed):
         shapes = list(plane_trees(n))
         for i in range(0, len(shapes), 4):
             out.append({"slice": f"edited trees<= {maxe} nodes", "mode": "edit", "shapes": shapes[i:i + 4]})
+    maxc = 7 if tier == "quick" else 8
+    for n in range(3, maxc + 1):
+        shapes = list(plane_trees(n))
+        for i in range(0, len(shapes), 8):
+            out.append({"slice": f"coexisting structures<= {maxc} nodes", "mode": "coexist", "shapes": shapes[i:i + 8]})
     maxl = 11 if tier == "quick" else 13
     for length in range(1, maxl + 1):
         for first in range(3):
@@ -103,6 +108,45 @@ def verify(t, nodes, lca, triples=True):
         want = t.lca(*t.leaves)
         if got is not nodes[want]:
             return (f"lca(all leaves) = {got.name}, expected n{want}", list(t.leaves)), n, nt
+    return None, n, nt
+
+
+def check_coexisting(shape):
+    """several LowestCommonAncestor objects alive at once on shared node objects: one for the whole tree and one for the
+    subtree of every internal node, built before and after the whole-tree one; each must keep answering for ITS tree.
+    -> (bad, n, nt)"""
+    t = T(shape)
+    n = nt = 0
+    for order in ("sub_first", "whole_first"):
+        nodes = build_ete(t)
+        subs = {}
+        whole = None
+        if order == "whole_first":
+            whole = LowestCommonAncestor(nodes[t.root])
+        for v in t.internal:
+            if v != t.root:
+                subs[v] = LowestCommonAncestor(nodes[v])
+        if whole is None:
+            whole = LowestCommonAncestor(nodes[t.root])
+        bad, k, k2 = verify(t, nodes, whole, triples=False)
+        n += k
+        nt += k2
+        if bad:
+            return (f"whole-tree structure with subtree structures alive ({order}): " + bad[0], bad[1]), n, nt
+        for v, sub in subs.items():
+            inside = t.subtree_nodes(v)
+            for a in inside:
+                for b in inside:
+                    n += 1
+                    want = t.lca(a, b)
+                    got = sub(nodes[a], nodes[b])
+                    if got is not nodes[want]:
+                        return (f"structure of the subtree at n{v} ({order}): lca(n{a}, n{b}) = {got.name}, expected n{want}", [a, b]), n, nt
+                    if sub.distance(nodes[a], nodes[b]) != t.dist(a, b):
+                        return (f"structure of the subtree at n{v} ({order}): distance(n{a}, n{b}) = "
+                                f"{sub.distance(nodes[a], nodes[b])}, expected {t.dist(a, b)}", [a, b]), n, nt
+                if sub.level(nodes[a]) != t.depth[a] - t.depth[v]:
+                    return (f"structure of the subtree at n{v} ({order}): level(n{a}) = {sub.level(nodes[a])}", [a]), n, nt
     return None, n, nt
 
 
@@ -185,6 +229,21 @@ def run_shard(shard, tier, seed):
                                       "case": {"mode": "edit", "shape": shape, "edit": list(edit), "query": bad[1]}})
                 if not samples:
                     samples.append({"mode": "edit", "shape": shape, "edit": list(edit)})
+    elif shard["mode"] == "coexist":
+        for shape in shard["shapes"]:
+            try:
+                bad, n, k = check_coexisting(shape)
+            except Exception as exc:
+                bad, n, k = (f"exception {type(exc).__name__}: {exc}\n{traceback.format_exc(limit=4)}", None), 1, 0
+            n_eval += n
+            nt += k
+            if bad:
+                vtotal += 1
+                if len(viols) < 4:
+                    viols.append({"property": PROP, "subcheck": "coexisting_structures", "detail": bad[0],
+                                  "case": {"mode": "coexist", "shape": shape, "query": bad[1]}})
+            if not samples:
+                samples.append({"mode": "coexist", "shape": shape})
     elif shard["mode"] == "tree":
         for shape in shard["shapes"]:
             try:
@@ -228,6 +287,8 @@ def replay(v):
     try:
         if case["mode"] == "tree":
             bad, _, _ = check_tree(shape_from_json(case["shape"]))
+        elif case["mode"] == "coexist":
+            bad, _, _ = check_coexisting(shape_from_json(case["shape"]))
         elif case["mode"] == "edit":
             bad, _, _ = check_edit(shape_from_json(case["shape"]), tuple(case["edit"]))
         else:
